@@ -64,3 +64,5 @@ M("c15-writer-and-default", "C15", "writer-contract", (T, "    if module_writer:
 M("c15-lookup-writes", "C15", "who-may-write", (L, "        self._collection[uri] = template\n", "        self._collection[uri] = template\n        open('/tmp/x', 'w').write(uri)\n"))
 M("c15-verify-unbounded", "C15", "verify-directory", (U, "            if tries > 5:\n                raise", "            pass"))
 M("c15-benign-os-replace", "C15", "silent", (T, "shutil.move(name, outputpath)", "os.replace(name, outputpath)"))
+M("c16-check-then-act", "C16", "check-then-act", (L, "        try:\n            return self._uri_cache[key]\n        except KeyError:\n            pass", "        if key in self._uri_cache:\n            return self._uri_cache[key]"))
+M("c16-benign-with-lock", "C16", "silent", (L, "        self._mutex.acquire()\n        try:\n            try:\n                # try returning", "        self._mutex.acquire()\n        try:\n            try:\n                # (comment changed) try returning"))
